@@ -2874,34 +2874,41 @@ fn pattern_matches(pattern: &[u8], text: &[u8]) -> bool {
                     continue;
                 }
                 b'[' => {
-                    if let Some(end) = pattern_chars[p_idx..].iter().position(|&c| c == b']') {
-                        let class_end = p_idx + end;
-                        let negate = p_idx + 1 < class_end && pattern_chars[p_idx + 1] == b'^';
-                        let start_idx = if negate { p_idx + 2 } else { p_idx + 1 };
-                        
-                        let mut matched = false;
-                        let mut i = start_idx;
-                        while i < class_end {
-                            if i + 2 < class_end && pattern_chars[i + 1] == b'-' {
-                                if text_chars[t_idx] >= pattern_chars[i] && text_chars[t_idx] <= pattern_chars[i + 2] {
-                                    matched = true;
-                                    break;
-                                }
-                                i += 3;
-                            } else {
-                                if text_chars[t_idx] == pattern_chars[i] {
-                                    matched = true;
-                                    break;
-                                }
-                                i += 1;
+                    // Redis `stringmatchlen`: the class is walked member by member, so `\x` is the member x (also `\]`),
+                    // the bounds of a range are ordered (`[c-a]` is `[a-c]`) and a class that is not closed runs to
+                    // the end of the pattern
+                    let c = text_chars[t_idx];
+                    let mut i = p_idx + 1;
+                    let negate = i < pattern_chars.len() && pattern_chars[i] == b'^';
+                    if negate {
+                        i += 1;
+                    }
+                    let mut matched = false;
+                    while i < pattern_chars.len() {
+                        if pattern_chars[i] == b'\\' && i + 1 < pattern_chars.len() {
+                            i += 1;
+                            if pattern_chars[i] == c {
+                                matched = true;
                             }
+                        } else if pattern_chars[i] == b']' {
+                            i += 1;
+                            break;
+                        } else if i + 2 < pattern_chars.len() && pattern_chars[i + 1] == b'-' {
+                            let (lo, hi) = (pattern_chars[i].min(pattern_chars[i + 2]), pattern_chars[i].max(pattern_chars[i + 2]));
+                            i += 2;
+                            if c >= lo && c <= hi {
+                                matched = true;
+                            }
+                        } else if pattern_chars[i] == c {
+                            matched = true;
                         }
-                        
-                        if matched != negate {
-                            p_idx = class_end + 1;
-                            t_idx += 1;
-                            continue;
-                        }
+                        i += 1;
+                    }
+                    
+                    if matched != negate {
+                        p_idx = i;
+                        t_idx += 1;
+                        continue;
                     }
                 }
                 b'\\' if p_idx + 1 < pattern_chars.len() => {
